@@ -128,6 +128,23 @@ pub fn run(args: &[String]) {
             put(&mut out, "tdigest", json!({"scale": scale, "delta": delta, "mb": mb}), r);
         }
     }
+    // TDigest with weights (fractional, mixed): the centroid bound is a function of the configuration only
+    for scale in ["K0", "K1", "K2", "K3"] {
+        for (wname, wsel) in [("half", 0u8), ("mixed", 1u8)] {
+            let mut rng = Prng::new(11);
+            let r = measure(
+                || td::make(scale, 50.0, 10),
+                |d, i| {
+                    let x = (rng.below(2_000_001) as f64) - 1_000_000.0;
+                    let w = if wsel == 0 { 0.5 } else { [0.25, 0.5, 1.0, 3.0, 1e-3, 40.0][(i % 6) as usize] };
+                    match d { td::Dg::K0(t) => t.insert_weighted(x, w), td::Dg::K1(t) => t.insert_weighted(x, w), td::Dg::K2(t) => t.insert_weighted(x, w), td::Dg::K3(t) => t.insert_weighted(x, w) }
+                },
+                |d| match d { td::Dg::K0(t) => t.clear(), td::Dg::K1(t) => t.clear(), td::Dg::K2(t) => t.clear(), td::Dg::K3(t) => t.clear() },
+                &stages,
+            );
+            put(&mut out, "tdigest", json!({"scale": scale, "delta": 50, "mb": 10, "weights": wname}), r);
+        }
+    }
     // ReservoirSampling<u64>
     for k in [1usize, 10, 1000] {
         let r = measure(|| ReservoirSampling::<u64, ChaChaRng>::new(k, ChaChaRng::from_seed([0; 32])), |f, i| f.add(i), |f| f.clear(), &stages);
@@ -142,6 +159,12 @@ pub fn run(args: &[String]) {
     for w in [10usize, 100, 1000] {
         let r = measure(|| LossyCounter::<u64>::with_width(w), |f, i| { f.add(mix64(i) % 100_000); }, |f| f.clear(), &stages);
         put(&mut out, "lossy", json!({"width": w}), r);
+    }
+    // LossyCounter on the adversarial stream: every width-th element is one tracked heavy hitter, all others distinct
+    for w in [10usize, 100] {
+        let wu = w as u64;
+        let r = measure(|| LossyCounter::<u64>::with_width(w), |f, i| { f.add(if (i + 1) % wu == 0 { 0 } else { 1_000_000 + i }); }, |f| f.clear(), &stages);
+        put(&mut out, "lossy", json!({"width": w, "stream": "window-aligned heavy hitter"}), r);
     }
     // failed-operation paths: a full cuckoo / quotient filter that keeps rejecting inserts must not grow
     {
